@@ -266,6 +266,8 @@ PROPS = {
     },
     "C16": {
         "n": {"quick": 60, "thorough": 2500},
+        # whole sessions over a real ssh process with 700 ms timeouts: a starved run is re-run alone before it counts
+        "retry_sigs": r"(C16:session-nc-count|C16:session-nc-result|C16:session-cli|C16:session-open|C16:open-error)",
         "cone": ["Bytes", "Pipes", "PipesLemmas"],
         "kernel_maxlen": 3000,
         "rule": "the three built-in transports against real peers on loopback: transport.Telnet vs a TCP server, transport.Standard vs an in-process "
